@@ -147,6 +147,52 @@ def r1_tables(ctx, res):
             res.find(key, lmf.relpath, f'_NS_ATTRS[{v!r}] does not map exactly the dc: attributes of {uri} plus status/note/confidenceScore')
 
 
+def reader_all_forms_converted(ctx, res):
+    """the typed attributes of form-like elements (Pronunciation.phonemic, ...) are converted in _validate_forms: every lemma -
+    external or not - and every form of an entry must be handed to it.  On the summary of _validate_entries: the collection
+    passed to _validate_forms contains the entry's lemma whenever there is one (no other condition) and all its forms."""
+    import re as _re
+    from ..speccheck import view
+    from .c02 import _parse_summary_expr as _p
+    v = view(ctx, 'lmf', '_validate_entries')
+    key = 'reader:lemma-and-forms-validated'
+    calls = [r for r in v.rows if r[0] == 'call' and r[1].startswith('_validate_forms(')]
+    res.inst(key, v.loc(), f'{len(calls)} path(s) reach _validate_forms')
+    if not calls:
+        raise AnalysisError('anchor vanished: _validate_entries no longer calls _validate_forms')
+    L, F = "$1.get('lemma')", "$1.get('forms', [])"
+    presence = {L, f'{L} is not None'}
+    for r in calls:
+        arg = r[1][len('_validate_forms('):].rsplit(', ', 1)[0]
+        bad = None
+        m = _re.fullmatch(r'#(\d+)', arg)
+        if m:
+            cell = m.group(1)
+            init = [e for e in v.E if e.kind == 'new' and e.text.startswith(f'#{cell}<')]
+            adds = [x for x in v.rows if x[0] == 'call' and _re.match(rf'#{cell}\.(insert|append)\(', x[1]) and L in x[1]]
+            if not init or F not in init[0].text:
+                bad = f'the collection does not start from all forms of the entry ({init[0].text[:60] if init else "?"})'
+            elif not adds:
+                bad = 'the lemma is never added to the collection'
+            else:
+                for a in adds:
+                    extra = {g for g in (set(a[2]) - set(r[2])) if 'lemma' in g} - presence
+                    if extra and all((set(a2[2]) - set(r[2])) - presence for a2 in adds):
+                        bad = f'the lemma is added only when {sorted(extra)}'
+        else:
+            if F not in arg or L not in arg:
+                bad = f'`{arg[:80]}` does not contain the lemma and all forms'
+            else:
+                tests = [norm(t.test).replace('_loop_', '$') for t in ast.walk(_p(arg)) if isinstance(t, ast.IfExp)]
+                extra = [t for t in tests if t not in presence]
+                if extra:
+                    bad = f'the lemma is included only when {extra}'
+        if bad:
+            res.find(key, v.loc(r[4]), f'_validate_entries hands `{arg[:60]}` to _validate_forms: {bad}; the typed attributes of the elements left '
+                                       f'out (e.g. Pronunciation phonemic="false" under an ExternalLemma) are not converted and dump() writes them wrongly')
+            break
+
+
 def reader_text_checks(ctx, res):
     """the reader hands element text over complete and unaltered (shared by C01: add() stores what load() returns)"""
     import re as _re
@@ -246,6 +292,7 @@ def r2_model_reader(ctx, res):
             res.find(key, v.loc(), f'{fname} no longer converts {k!r} ({what}) whenever it is present: '
                                    f'{sorted({r[1] for r in stores})[:2]}: the loaded value has the wrong type for the model')
     reader_text_checks(ctx, res)
+    reader_all_forms_converted(ctx, res)
     # typed keys of the model that need a conversion are all in the table
     for cls, keys in model.classes.items():
         for k, (ann, req) in keys.items():
